@@ -147,9 +147,13 @@ def isEndOfStream(substrate):
         yield result
 
     else:
-        received = substrate.read(1)
-        if received is None:
-            yield
+        while True:
+            received = substrate.read(1)
+            if received is None:  # non-blocking stream, no data yet
+                yield error.SubstrateUnderrunError()
+
+            else:
+                break
 
         if received:
             substrate.seek(-1, os.SEEK_CUR)
